@@ -1,0 +1,17 @@
+//go:build verif
+
+package searcher
+
+// Exported views of unexported pure functions, for the /verif correspondence harness.
+// Built only with -tags verif.
+
+// VerifSplitInt64Range returns the (start, end) terms of every range produced by
+// splitInt64Range.
+func VerifSplitInt64Range(minBound, maxBound int64, precisionStep uint) [][2][]byte {
+	trs := splitInt64Range(minBound, maxBound, precisionStep)
+	rv := make([][2][]byte, 0, len(trs))
+	for _, tr := range trs {
+		rv = append(rv, [2][]byte{tr.startTerm, tr.endTerm})
+	}
+	return rv
+}
